@@ -110,6 +110,24 @@ def is_channel(mm):
         return True
 
 
+def emodulus_requirements(mm):
+    """Requirement function for the Young's modulus
+
+    Returns `False` for reservoir measurements. Otherwise, a tuple
+    containing all emodulus-related values of the [calculation]
+    configuration section is returned, so that they are considered
+    when identifying cached data (the scenario A, B, or C actually
+    used by :func:`compute_emodulus` may depend on keys that are not
+    required by the ancillary feature that is available with the
+    highest priority).
+    """
+    if not is_channel(mm):
+        return False
+    calccfg = mm.config["calculation"]
+    return ("channel", tuple((key, calccfg[key]) for key in sorted(calccfg)
+                             if key.startswith("emodulus ")))
+
+
 def register():
     # Please note that registering these things is a delicate business,
     # because the priority has to be chosen carefully.
@@ -131,7 +149,7 @@ def register():
                                      ["imaging", ["pixel size"]],
                                      ["setup", ["flow rate", "channel width"]]
                                      ],
-                         req_func=is_channel,
+                         req_func=emodulus_requirements,
                          priority=4 + pr)
         AncillaryFeature(feature_name="emodulus",
                          data="case A",
@@ -143,7 +161,7 @@ def register():
                                      ["imaging", ["pixel size"]],
                                      ["setup", ["flow rate", "channel width"]]
                                      ],
-                         req_func=is_channel,
+                         req_func=emodulus_requirements,
                          priority=0 + pr)
 
     AncillaryFeature(feature_name="emodulus",
@@ -156,5 +174,5 @@ def register():
                                  ["imaging", ["pixel size"]],
                                  ["setup", ["flow rate", "channel width"]]
                                  ],
-                     req_func=is_channel,
+                     req_func=emodulus_requirements,
                      priority=2)
